@@ -394,6 +394,9 @@ def bounded(tier, seed):
     from rtc import ioapi as IOH
     for boundary in (False, True):
         f = IOH.make_ioapi(P, nt=5, nz=3, ny=4, nx=5, boundary=boundary, seed=seed)
+        # attributes that are not what the IOAPI constructor would write (long_name other than the padded key)
+        f.variables['V0'].long_name = 'Ozone'
+        f.variables['V0'].var_desc = 'ozone mixing ratio, not padded'
         nsel = dict(TSTEP=5, LAY=3, ROW=4, COL=5, PERIM=2 * (5 + 4) + 4)
         for d in ('TSTEP', 'LAY') + (('PERIM',) if boundary else ('ROW', 'COL')):
             n = nsel[d]
@@ -407,6 +410,11 @@ def bounded(tier, seed):
                         e = H.arr_equal(g.variables[vk][...], exp)
                         if e:
                             return 'IOAPI variable %s%r is not the requested hyperslab: %s' % (vk, tuple(v.dimensions), e)
+                        if vk not in ('TFLAG', 'ETFLAG'):
+                            gv = g.variables[vk]
+                            for ak in v.ncattrs():
+                                if ak not in gv.ncattrs() or str(getattr(gv, ak)) != str(getattr(v, ak)):
+                                    return 'IOAPI variable %s: attribute %s is %r after slicing, the source has %r' % (vk, ak, getattr(gv, ak, None), getattr(v, ak))
                     return None
                 run.case('C02:ioapi sliceDimensions(%s)' % d, (boundary, d, repr(s_)), t)
     # selectors given as numpy arrays, ONE array object shared by several dimensions (the `ROW=i, COL=i` idiom), negative entries:
